@@ -21,6 +21,7 @@ package main
 // need them use calling contexts (sitectx.go).
 
 import (
+	"go/constant"
 	"go/token"
 	"go/types"
 
@@ -455,6 +456,12 @@ func resultOf(v ssa.Value) ssa.Value {
 		}
 		res := g.Signature.Results()
 		errLast := res.Len() > 0 && types.Identical(res.At(res.Len()-1).Type(), types.Universe.Lookup("error").Type())
+		okLast := false
+		if res.Len() > 1 {
+			if b, isB := res.At(res.Len() - 1).Type().Underlying().(*types.Basic); isB && b.Kind() == types.Bool {
+				okLast = true
+			}
+		}
 		var cand []*ssa.Return
 		for _, in := range instrsOf(g) {
 			r, ok := in.(*ssa.Return)
@@ -463,6 +470,11 @@ func resultOf(v ssa.Value) ssa.Value {
 			}
 			if errLast && idx != res.Len()-1 && !isNilConst(retResult(r, res.Len()-1)) {
 				continue // an error return: the other results are not used by a correct caller
+			}
+			if okLast && idx != res.Len()-1 {
+				if k, isK := retResult(r, res.Len()-1).(*ssa.Const); isK && k.Value != nil && k.Value.Kind() == constant.Bool && !constant.BoolVal(k.Value) {
+					continue // the comma-ok idiom: `return zero, false`
+				}
 			}
 			cand = append(cand, r)
 		}
@@ -583,4 +595,176 @@ func mustExecuteBefore(in ssa.Instruction, call *ssa.Call, user ssa.Instruction)
 		}
 	}
 	return true
+}
+
+// returnsDeep: the return statements that end fn, where a `return g(…)` that forwards all results of
+// a transparent helper g unchanged is replaced by g's own returns (recursively).
+func returnsDeep(fn *ssa.Function) []*ssa.Return {
+	return returnsDeepN(fn, 0)
+}
+
+func returnsDeepN(fn *ssa.Function, depth int) []*ssa.Return {
+	var out []*ssa.Return
+	for _, in := range instrsOf(fn) {
+		r, ok := in.(*ssa.Return)
+		if !ok {
+			continue
+		}
+		if g := forwardedHelper(r); g != nil && depth < 4 {
+			out = append(out, returnsDeepN(g, depth+1)...)
+			continue
+		}
+		out = append(out, r)
+	}
+	return out
+}
+
+// forwardedHelper: r returns exactly the results of one call to a transparent helper, in order.
+func forwardedHelper(r *ssa.Return) *ssa.Function {
+	if len(r.Results) == 0 {
+		return nil
+	}
+	var call *ssa.Call
+	for i, v := range retResults(r) {
+		var c *ssa.Call
+		switch x := v.(type) {
+		case *ssa.Call:
+			if len(r.Results) == 1 {
+				c = x
+			}
+		case *ssa.Extract:
+			if cc, ok := x.Tuple.(*ssa.Call); ok && x.Index == i {
+				c = cc
+			}
+		}
+		if c == nil || (call != nil && c != call) {
+			return nil
+		}
+		call = c
+	}
+	g := isHelperCall(call)
+	if g == nil || g.Signature.Results().Len() != len(r.Results) {
+		return nil
+	}
+	return g
+}
+
+// closureFactory: g is an own function whose only return is a function literal (a closure factory:
+// `func threadSafe(create F) F { return func(…) … { … create(…) … } }`).  Returns the literal.
+func closureFactory(g *ssa.Function) *ssa.MakeClosure {
+	if g == nil || g.Blocks == nil || !ownPkgPath(pkgPathOf(g)) {
+		return nil
+	}
+	var ret *ssa.Return
+	for _, in := range instrsOf(g) {
+		if r, ok := in.(*ssa.Return); ok {
+			if ret != nil {
+				return nil
+			}
+			ret = r
+		}
+	}
+	if ret == nil || len(ret.Results) != 1 {
+		return nil
+	}
+	noParamLook++
+	mc, _ := strip(retResult(ret, 0)).(*ssa.MakeClosure)
+	noParamLook--
+	return mc
+}
+
+// closureLiteral: the function literal that v denotes — a MakeClosure, or the literal returned by the
+// closure factory that v is a call of (then the call is returned too: the literal's captured factory
+// parameters stand for the arguments of that call).
+func closureLiteral(v ssa.Value) (*ssa.MakeClosure, *ssa.Call) {
+	v = strip(v)
+	if mc, ok := v.(*ssa.MakeClosure); ok {
+		return mc, nil
+	}
+	if c, ok := v.(*ssa.Call); ok {
+		if g := c.Call.StaticCallee(); g != nil && len(g.Params) == len(c.Call.Args) {
+			if mc := closureFactory(g); mc != nil {
+				return mc, c
+			}
+		}
+	}
+	return nil, nil
+}
+
+// factoryArg: v, a value inside a literal made by a closure factory called at fc, is (a capture of) a
+// parameter of that factory: the argument fc passes for it.  Otherwise nil.
+func factoryArg(v ssa.Value, fc *ssa.Call) ssa.Value {
+	if fc == nil {
+		return nil
+	}
+	g := fc.Call.StaticCallee()
+	noParamLook++
+	v = strip(v)
+	noParamLook--
+	for i := 0; i < 4; i++ {
+		switch x := v.(type) {
+		case *ssa.Parameter:
+			if x.Parent() != g {
+				return nil
+			}
+			idx := paramIndex(x)
+			if idx < 0 || idx >= len(fc.Call.Args) {
+				return nil
+			}
+			return fc.Call.Args[idx]
+		case *ssa.FreeVar:
+			fn := x.Parent()
+			idx := -1
+			for k, fv := range fn.FreeVars {
+				if fv == x {
+					idx = k
+				}
+			}
+			var mcs []*ssa.MakeClosure
+			if fn.Parent() != nil {
+				for _, in := range instrsOf(fn.Parent()) {
+					if mc, ok := in.(*ssa.MakeClosure); ok && mc.Fn == ssa.Value(fn) {
+						mcs = append(mcs, mc)
+					}
+				}
+			}
+			if len(mcs) != 1 || idx < 0 || idx >= len(mcs[0].Bindings) {
+				return nil
+			}
+			noParamLook++
+			v = strip(mcs[0].Bindings[idx])
+			noParamLook--
+		case *ssa.UnOp:
+			// a captured variable lives in a cell: the parameter spilled into it
+			if x.Op != token.MUL {
+				return nil
+			}
+			if fv, ok := x.X.(*ssa.FreeVar); ok {
+				v = fv
+				continue
+			}
+			cell := cellOf(x.X)
+			if cell == nil {
+				return nil
+			}
+			sts := storesToCell(cell)
+			if len(sts) != 1 {
+				return nil
+			}
+			noParamLook++
+			v = strip(sts[0].Val)
+			noParamLook--
+		case *ssa.Alloc:
+			sts := storesToCell(x)
+			if len(sts) != 1 {
+				return nil
+			}
+			noParamLook++
+			v = strip(sts[0].Val)
+			noParamLook--
+		default:
+			return nil
+		}
+	}
+	return nil
 }
